@@ -894,6 +894,10 @@ class CallMixin(object):
                     else u.uf("is_bytes", u.Val, u.Bool)(v.z)
             if name == "six.integer_types":
                 return self._kind_test(v, "int", u.is_I)
+            last = name.rsplit(".", 1)[-1]
+            if "." in name and last in self.src.classes and last not in u.enum_classes:
+                # a module-qualified class of the repository (model.ScenarioOutline)
+                return self.isinstance_formula(st, v, SV(None, "class", py=last))
             raise Undecided("isinstance with %s" % name)
         if spec.kind == "callable" and spec.py[0] == "builtin":
             name = spec.py[1]
